@@ -9,6 +9,27 @@ PROPS = {
                        "logic of create/accessors tied by exhaustive correspondence on all 70 variant pairs and all 52 cards + blank.",
         "assumptions": ["accessors depend on the word only through the masked field they extract (checked on cards, blank and near-miss words)"],
     },
+    "C01": {
+        "families": inputs.c01_families,
+        "explanation": "C01_value/C01_order/C01_onto: abstraction of the evaluator to (ranks, flush bit) by bit-level lemmas, "
+                       "kernel reflection of the regenerated tables against the rules-of-poker ordinal over all 7,462 classes "
+                       "(sorted rank multisets), lifted to every slot order by permutation invariance; logic tied by running all "
+                       "2,598,960 hands through the extracted model and the implementation.",
+        "assumptions": [],
+    },
+    "C13": {
+        "families": inputs.c13_families,
+        "explanation": "C13_predicates for any five real cards in any order (reflection over the 6,188 rank multisets after the "
+                       "abstraction lemma), C13_category for distinct cards (reflection over the 7,462 classes).",
+        "assumptions": [],
+    },
+    "C05": {
+        "families": inputs.c05_families,
+        "chk": True,
+        "explanation": "C05_search_total (loop-invariant proof for every key, both overflow settings), C05_rank_total and "
+                       "C05_blank_five over card-or-blank hands; both build profiles exercised with catch_unwind.",
+        "assumptions": ["a Rust panic is modelled as the outcome Panic of the model's res type; real unwinding is observed by the harness (catch_unwind)"],
+    },
     "C18": {
         "families": inputs.c18_families,
         "explanation": "Closed computations on the regenerated deck, preset and slot-index tables; Deck::get proved for every index.",
